@@ -174,8 +174,10 @@ pub struct ReplayFile {
 pub fn write_replay(rf: &ReplayFile) -> PathBuf {
     let dir = verif_dir().join("replays");
     let _ = std::fs::create_dir_all(&dir);
-    let p = dir.join(format!("{}-{}-{}.json", rf.property, rf.seed, rf.run));
-    let tmp = dir.join(format!("{}-{}-{}.json.tmp", rf.property, rf.seed, rf.run));
+    // one file per distinct violation (fingerprint), not per failing run
+    let fp = hash64(&[rf.fingerprint.as_bytes()]) & 0xffff_ffff;
+    let p = dir.join(format!("{}-{}-{:08x}.json", rf.property, rf.seed, fp));
+    let tmp = dir.join(format!("{}-{}-{:08x}.json.{}.tmp", rf.property, rf.seed, fp, std::process::id()));
     std::fs::write(&tmp, serde_json::to_vec_pretty(rf).unwrap()).expect("write replay");
     std::fs::rename(&tmp, &p).expect("rename replay");
     p
@@ -210,6 +212,8 @@ pub fn worker(prop: &dyn Prop, tier: Tier, seed: u64, runs: &[u64], pool: usize,
     let tmp = make_tmp();
     let env = Env { tier, pool, cpus, tmp: tmp.clone(), replaying: false };
     let known = load_known();
+    // violations already minimised and written by this worker
+    let mut reported: BTreeSet<String> = BTreeSet::new();
     for &i in runs {
         if Instant::now() > deadline {
             break;
@@ -221,6 +225,7 @@ pub fn worker(prop: &dyn Prop, tier: Tier, seed: u64, runs: &[u64], pool: usize,
         let mut line = RunLine { run: i, subseed: ss, pool, wall_ms: 0, report: Report::default(), replay: None, shrink_steps: 0, replay_verified: None };
         // a new (unlisted) violation: minimise and write the replay file
         let new_v = report.violations.iter().find(|v| known_match(&known, prop.id(), &v.fingerprint).is_none()).cloned();
+        let new_v = new_v.filter(|v| reported.insert(v.fingerprint.clone()));
         if let Some(v) = new_v {
             let (mspec, mreport, steps) = minimise(prop, &env, spec.clone(), report.clone(), &v.fingerprint, Instant::now() + Duration::from_secs(if tier == Tier::Quick { 40 } else { 240 }));
             let mv = mreport.violations.iter().find(|x| x.fingerprint == v.fingerprint).cloned().unwrap_or(v.clone());
@@ -498,7 +503,10 @@ fn finish(prop: &dyn Prop, tier: Tier, seed: u64, planned: u64, lines: &[RunLine
     }
     let mut exit = 0;
     let mut seen = BTreeSet::new();
-    for (fp, detail, replay, verified) in &new_violations {
+    // per fingerprint prefer the entry that carries the replay file
+    let mut ordered: Vec<&(String, String, Option<String>, Option<bool>)> = new_violations.iter().collect();
+    ordered.sort_by_key(|v| v.2.is_none());
+    for (fp, detail, replay, verified) in ordered {
         if !seen.insert(fp.clone()) {
             continue;
         }
